@@ -269,22 +269,34 @@ def cross_build(name, scenario, build_a="std", build_b="alloc", prop="C18", jobs
     def merge(trace, i):
         evs = [json.loads(l) for l in open(trace, "rb").read().split(b"\n") if l]
         out = []
+        diverged = set()        # parser ids whose two histories are no longer the same
         for j, e in enumerate(evs):
-            if j < len(other[i]) and e.get("op") in ("line", "unarmor", "decode") and other[i][j].get("op") == e.get("op"):
-                a = other[i][j]
+            a = other[i][j] if j < len(other[i]) else None
+            if e.get("op") == "new":
+                diverged.discard(e.get("p"))
+            if a is not None and e.get("op") in ("line", "unarmor", "decode") and a.get("op") == e.get("op"):
+                pair = True
+                mode = "full"
                 if stateless_only:
-                    # the other build has fixed capacities: after a capacity rejection its reassembly history
-                    # legitimately differs, so only history-free operations are paired (pure operations and
-                    # unfragmented sentences), and only when the other build produced a value (an error there is
-                    # judged by that build's own trace validation)
-                    if a.get("r") not in ("ok", "complete"):
-                        out.append(json.dumps(e, separators=(",", ":")))
-                        continue
-                    if e.get("op") == "line" and not (a.get("s", {}).get("n") == 1 and a.get("s", {}).get("k") == 1):
-                        out.append(json.dumps(e, separators=(",", ":")))
-                        continue
-                e["twin"] = {k: a[k] for k in ("r", "s", "ck", "msg", "out") if k in a}
-                e["twinprop"], e["twinmode"], e["twinwhy"] = prop, "full", "%s-vs-%s" % (build_a, build_b)
+                    # the other build has fixed capacities.  Pure operations are always paired, and the trace
+                    # specification decides whether an error there is excused by a capacity (mode "nonecap").
+                    # Lines are paired as long as both builds have returned the same kind of result for every
+                    # earlier line of this parser: after the first difference (a capacity rejection) the
+                    # reassembly histories legitimately differ until the next `new`.
+                    mode = "nonecap"
+                    if e["op"] == "line":
+                        p = e.get("p")
+                        val_a = a.get("r") in ("complete", "incomplete")
+                        val_e = e.get("r") in ("complete", "incomplete")
+                        if p in diverged:
+                            pair = False
+                        elif val_a != val_e or (val_a and a.get("r") != e.get("r")):
+                            diverged.add(p)
+                            # the diverging line itself is paired only when it is history-free
+                            pair = e.get("s", {}).get("n") == 1 and e.get("s", {}).get("k") == 1 if val_e else False
+                if pair:
+                    e["twin"] = {k: a[k] for k in ("r", "s", "ck", "msg", "out") if k in a}
+                    e["twinprop"], e["twinmode"], e["twinwhy"] = prop, mode, "%s-vs-%s" % (build_a, build_b)
             out.append(json.dumps(e, separators=(",", ":")))
         open(trace, "w").write("\n".join(out) + "\n")
     fr = run_family(name + "-" + build_a + "=" + build_b, scenario, build_a, jobs=jobs, known=known, twin_merge=merge)
